@@ -31,6 +31,11 @@ func runC05(c *Ctx) {
 	c.armPoolArgs("B7-pool-passes-its-arguments", func(m string) bool {
 		return strings.Contains(m, "Mix") || strings.Contains(m, "NSort") || strings.Contains(m, "NConcurrent")
 	}, 10)
+	// the windows [:n] and [n:][:m], "the highest", "the lowest" are cut from kc.SortRules: they are the N+M
+	// highest-priority rules only if that list is sorted, also after incremental updates, which keep it
+	// sorted through the binary search (C08-H1b: a miss returns the insertion point and 0)
+	c.ruleBinarySearch("B8-container-list-stays-sorted")
+	c.Min("B8-container-list-stays-sorted", 3)
 
 	kind := map[string]string{}
 	var all []string
